@@ -198,6 +198,26 @@ def run_case(ctx, i, rng):
             if e:
                 ctx.violation("element-root:cable", "%s | %s" % (e, st))
                 return
+            # ports / pins attached to the cable, in every occurrence of its definition (each exactly once)
+            wp, wn = collections.Counter(), collections.Counter()
+            for sq in occ["cables"]:
+                if sq[-1] is c:
+                    base = sq[:-1]
+                    for w_ in c.wires:
+                        for p_ in w_.pins:
+                            if isinstance(p_, sdn.OuterPin):
+                                k_ = base + (p_.instance, p_.inner_pin.port)
+                                kp = k_ + (p_.inner_pin,)
+                            else:
+                                k_ = base + (p_.port,)
+                                kp = k_ + (p_,)
+                            wp[ids(k_)] = 1
+                            wn[ids(kp)] = 1
+            ctx.count("element_root_queries", 2)
+            e = cmp(ctx, "get_hports(cable)", list(sdn.get_hports(c)), wp) or cmp(ctx, "get_hpins(cable)", list(sdn.get_hpins(c)), wn)
+            if e:
+                ctx.violation("element-root:cable-ports", "%s | %s" % (e, st))
+                return
             for w in pick(c.wires, 2):
                 ctx.count("element_root_queries")
                 e = cmp(ctx, "get_hwires(wire)", list(sdn.get_hwires(w)), by_last.get(("wires", id(w)), collections.Counter()))
